@@ -14,6 +14,7 @@ import QrlewModel.Model.RelTree
 import QrlewModel.Model.TauKeys
 import QrlewModel.Model.ExprImg
 import QrlewModel.Model.DTLat
+import QrlewModel.Model.InjLat
 import QrlewModel.Model.Tau
 import QrlewModel.Model.Rel
 import QrlewModel.Model.Quote
@@ -566,6 +567,42 @@ def runDtLat (c : Json) : Option Json := do
   let render (o : Option DTLat.DT) : Json := match o with | some t => dtToJson t | none => Json.str "outside-fragment"
   pure (Json.mkObj [("sub", Json.bool (DTLat.subset cap a b)), ("union", render (DTLat.union cap a b)), ("inter", render (DTLat.inter cap a b))])
 
+/-- conversions between composite types: `Qrlew.InjLat.imageT` and `conv` -/
+partial def vOfJson? (j : Json) : Option InjLat.V := do
+  let tag ← (j.getArrVal? 0).toOption >>= fun t => t.getStr?.toOption
+  match tag with
+  | "i" => do pure (.i (← (j.getArrVal? 1).toOption >>= jInt?))
+  | "none" => pure .none
+  | "some" => do pure (.some (← (j.getArrVal? 1).toOption >>= vOfJson?))
+  | "pair" => do pure (.pair (← (j.getArrVal? 1).toOption >>= vOfJson?) (← (j.getArrVal? 2).toOption >>= vOfJson?))
+  | "list" => do
+      let a ← (j.getArrVal? 1).toOption >>= fun a => a.getArr?.toOption
+      pure (.list (← a.toList.mapM vOfJson?))
+  | _ => none
+
+partial def vToJson : InjLat.V → Json
+  | .i n => Json.arr #[Json.str "i", Json.num (JsonNumber.fromInt n)]
+  | .none => Json.arr #[Json.str "none"]
+  | .some v => Json.arr #[Json.str "some", vToJson v]
+  | .pair a b => Json.arr #[Json.str "pair", vToJson a, vToJson b]
+  | .list vs => Json.arr #[Json.str "list", Json.arr (vs.map vToJson).toArray]
+
+def runInjLat (c : Json) : Option Json := do
+  let a ← (c.getObjVal? "a").toOption >>= dtOfJson?
+  let b ← (c.getObjVal? "b").toOption >>= dtOfJson?
+  match InjLat.imageT cap a b with
+  | none => pure (Json.mkObj [("accepted", Json.bool false)])
+  | some img =>
+    let one (k : String) : Json := match (c.getObjVal? k).toOption with
+      | some Json.null => Json.null
+      | some j => match vOfJson? j with
+        | some v => match InjLat.conv cap a b v with
+          | some w => vToJson w
+          | none => Json.str "refused"
+        | none => Json.str "bad-value"
+      | none => Json.null
+    pure (Json.mkObj [("accepted", Json.bool true), ("image", dtToJson img), ("conv", Json.arr #[one "v1", one "v2"])])
+
 def runLimit (c : Json) : Option Json := do
   let k ← (c.getObjVal? "k").toOption >>= jInt?
   let nU ← (c.getObjVal? "n_units").toOption >>= jInt?
@@ -752,6 +789,7 @@ def handle (line : String) : Json :=
       | "taukeys" => runTauKeys c ((j.getObjVal? "aux").toOption.getD Json.null)
       | "exprimg" => runExprImg c
       | "dtlat" => runDtLat c
+      | "injlat" => runInjLat c
       | "dpevent" => runDpEvent c
       | "dpquery" => runDpQuery ((j.getObjVal? "aux").toOption.getD Json.null)
       | "rules" => runRules ((j.getObjVal? "aux").toOption.getD Json.null)
